@@ -3,12 +3,22 @@
 TLC (MC_Shaper): (a) explores the engine model of Shaper.tla - map_glyphs, primitive substitution /
 positioning steps, fail-and-forge-ahead, clamp, glyph_positions - and checks that every primitive
 preserves the clauses of the property; (b) enumerates every syllable-class string up to the bound
-and prints one CASE per string.
-Harness (c02_shape): concretises each class string per script, runs it through the repository fonts
-of the script under feature / kerning / tuple / direction configurations, then repeats a sample on
-copies of the fonts whose GSUB / GPOS / GDEF / kern / morx bytes are corrupted; every sequence
-map_glyphs -> shape -> glyph_positions runs supervised (panic, CPU budget, process death are data)
-and is projected into one event.
+(fam "syl") and (c) every text-shape-class string of the default shaper up to its bound (fam "txt":
+ligating letter, later ligature component, substituted letter, decomposing letter, digit, ASCII
+slash, U+2044, space, two marks, joiner), one CASE per string.
+Harness (c02_shape): concretises each syllable string per script and runs it through the repository
+fonts of the script under feature / kerning / tuple / direction / vertical configurations; maps each
+text string onto the glyph roles of every systematically synthesized font (c02_shape/synth.rs:
+frac + length-changing features, ligatures of 2..4 components x LigatureAttach tables with fewer /
+equal / more component records, MarkBase / MarkMark class-count boundaries, cursive chains, context
+lookups that shorten / lengthen the run at its ends, empty coverages, last / missing glyph ids, GDEF
+absent, kern fallback, damaged LangSys, alternates, extreme values, vert / vrt2, FeatureVariations)
+whose roles cover the string, and onto the repository fonts of the default shaper under the
+configurations with a special-cased path (frac, numeric, vertical, alternates, GPOS-led custom
+lists); then repeats a sample on copies of the fonts whose GSUB / GPOS / GDEF / kern / morx bytes are
+corrupted. One Font object serves all consecutive calls on a font (also after a call that returned
+Err). Every sequence map_glyphs -> shape -> glyph_positions runs supervised (panic, CPU budget,
+process death are data) and is projected into one event.
 TLC (Trace_Shaper): judges every event with Shaper!CallFailures.
 """
 import concurrent.futures
@@ -26,11 +36,46 @@ ASSUMPTIONS = [
     "input is taken as terminating; the budget is CPU time of the calling thread, not wall clock",
     "'the run submitted for shaping' is the output of Font::map_glyphs on the text (its unicodes), as in the "
     "documented calling sequence map_glyphs -> shape -> glyph_positions",
-    "well-formed fonts = the unmodified repository fonts that Font::new loads; corrupted fonts = the same files "
-    "with seeded byte overwrites / length truncations inside GSUB, GPOS, GDEF, kern, morx only",
+    "well-formed fonts = the unmodified repository fonts that Font::new loads and the synthesized fonts whose "
+    "tables are structurally valid and name existing glyphs only; not well-formed (GidBelowCount not demanded) = "
+    "the same fonts with seeded byte overwrites / length truncations inside GSUB, GPOS, GDEF, kern, morx, and the "
+    "synthesized fonts that name a missing glyph id, a mark class >= the class count, a feature index beyond the "
+    "FeatureList or a base array shorter than its coverage",
+    "the harness is built with overflow-checks and debug-assertions on (as `cargo test` builds allsorts): an "
+    "arithmetic overflow inside allsorts is a panic",
+    "synthesized fonts are written by the harness's own encoders (copies of the C04 / C05 encoders); allsorts "
+    "silently skips a lookup subtable it cannot read, so the vacuity counters measured on the returned runs, not "
+    "the catalogue, say which table shapes were exercised",
     "one Font object is reused for consecutive calls on the same font bytes (a fresh one after a panic); "
     "independence from call history is property C03",
     "attachment indices above 2^30 are logged as 2^30",
+]
+
+# facts measured on the returned runs (o.f) that must occur in every run of the check: each names a
+# special-cased path or a table boundary that an earlier version of the check never reached
+NEEDED_FACTS = [
+    # fraction path of the default shaper (gsub_apply_lookups_frac)
+    "frac_requested_on_fraction_fracfont", "frac_fraction_has_prefix_fracfont", "frac_prefix_ligated_fracfont",
+    "frac_prefix_decomposed_fracfont", "frac_prefix_shrunk_fracfont", "frac_fraction_ends_run_fracfont",
+    "frac_requested_on_fraction", "text_u2044_between_digits",
+    # MarkLigPos component index against the number of component records
+    "marklig_component_lt_records", "marklig_component_eq_records", "marklig_component_gt_records",
+    "marklig_no_component_record", "marklig_mark_attached_to_ligature",
+    # MarkBase / MarkMark boundaries
+    "mark_class_ge_class_count_err", "mark_base_array_short_err", "mark_to_mark_attached",
+    "mark_left_unattached_null_anchor_font",
+    # cursive, contextual, vertical, alternates, tuples, edge tables
+    "cursive_attachment", "cursive_chain_of_3", "run_length_changed_at_start", "run_length_changed_at_end", "run_emptied",
+    "vertical_layout", "vert_alternate_in_vertical_layout", "alternate_first_selected", "alternate_second_selected",
+    "feature_variation_substitution_applied", "last_glyph_id_in_run", "missing_glyph_id_replaced",
+    "kern_table_fallback_applied", "mark_overprint_fallback", "gdef_absent_nontrivial", "empty_coverage_font_shaped",
+    "bad_langsys_err",
+    # repeated calls on one Font object
+    "call_on_used_font", "call_on_font_after_err", "err_again_on_same_font",
+    # every family of synthesized fonts does something
+    "synth_frac_nontrivial", "synth_marklig_nontrivial", "synth_mark_nontrivial", "synth_curs_nontrivial",
+    "synth_ctx_nontrivial", "synth_edge_nontrivial", "synth_extreme_nontrivial", "synth_vert_nontrivial",
+    "synth_tuple_nontrivial",
 ]
 
 FAMILY = {"arab": "Arabic", "syrc": "Syriac", "khmr": "Khmer", "mymr": "Myanmar", "mym2": "Myanmar",
@@ -221,7 +266,8 @@ def run(ctx):
         m["seed"] = ctx.seed
         violations.append(_mk_viol(m))
 
-    needed = ["runs_with_attachment", "runs_with_inserted_dotted_circle", "runs_with_ligature", "shape_err"]
+    needed = ["runs_with_attachment", "runs_with_inserted_dotted_circle", "runs_with_ligature", "shape_err",
+              "jobs_on_synthesized_fonts", "jobs_text_classes_on_repository_fonts"] + ["f_" + k for k in NEEDED_FACTS]
     vac = [k for k in needed if not rep.get(k)]
     if vac:
         raise vlib.ToolError("vacuous exploration: no event with %s" % vac)
@@ -230,16 +276,25 @@ def run(ctx):
         "evaluations": n_events,
         "distinct_nontrivial": rep.get("nontrivial", 0),
         "rule": "every syllable-class string up to the bound (TLC) x scripts x repository fonts of the script x feature / "
-                "kerning / tuple / direction configurations as laid out by the deterministic plan in c02_shape.rs "
-                "(short strings: every font and feature configuration; longer ones: fonts and configurations drawn by "
-                "seeded hash), plus seeded corruptions of the layout tables; each job is distinct by construction; a job "
-                "is non-trivial when shaping changed the glyph sequence, placed or attached a glyph, or returned Err",
+                "kerning / tuple / direction / vertical configurations as laid out by the deterministic plan in "
+                "c02_shape.rs (short strings: every font and feature configuration; longer ones: fonts and "
+                "configurations drawn by seeded hash); every text-class string up to the bound (TLC) x every "
+                "synthesized font whose glyph roles cover it (short strings and fractions on frac fonts: all "
+                "configurations of the font, longer ones: one) and x the repository fonts of the default shaper "
+                "(short strings: six special-path configurations, strings with a fraction: the frac configuration, "
+                "the rest sampled by seeded hash); plus seeded corruptions of the layout tables of repository and "
+                "synthesized fonts; each job is distinct by construction; a job is non-trivial when shaping changed "
+                "the glyph sequence, placed or attached a glyph, or returned Err",
         "samples": [base] + samples,
         "states": mc.distinct,
         "transitions": mc.generated,
         "traces_validated_against_impl": n_events,
         "class_strings": n_cases[0],
         "fonts": rep.get("fonts"),
+        "synthesized_fonts": rep.get("synth_fonts"),
+        "events_on_synthesized_fonts": rep.get("jobs_on_synthesized_fonts"),
+        "events_text_classes": rep.get("jobs_text_classes"),
+        "facts_reached": {k[2:]: v for k, v in sorted(rep.items()) if k.startswith("f_")},
         "events_on_corrupted_fonts": ctx.corrupt_events,
         "harness_counters": rep,
         "non_conforming_events": len(mism) - len(seen),
@@ -247,7 +302,8 @@ def run(ctx):
         "binding_selfcheck": "five corrupted copies of a recorded event rejected, each for its own clause",
         "exhaustive": False,
         "explanation": "engine model exhaustively checked by TLC (config %s); class strings exhaustive up to the bound, "
-                       "their concretisation and the font/configuration product are sampled as described in rule" % cfg,
+                       "their concretisation and the font/configuration product are sampled as described in rule; "
+                       "synthesized fonts x text-class strings over their roles are exhaustive up to the bound" % cfg,
     }
     vlib.finish(ctx, LEVEL, coverage, violations, ASSUMPTIONS)
 
